@@ -289,7 +289,8 @@ pub fn run_pipeline_check(check: &str, tier: Tier, seed: u64) -> i32 {
     let spec = check_spec(check);
     let runs = runs_for(&spec, tier);
     let case = |idx: u64| pipeline_case_record(check, tier, seed, idx);
-    let (agg, wall) = batch::run_batch(runs, jobs(), 4, None, &case);
+    let max_finding_cases = std::env::var("VERIF_MAX_FINDING_CASES").ok().and_then(|s| s.parse().ok()).unwrap_or(4usize);
+    let (agg, wall) = batch::run_batch(runs, jobs(), max_finding_cases, None, &case);
 
     let known = known::load();
     let mut violations = 0u64;
